@@ -208,9 +208,12 @@ def session(pa, rng, length, max_obj=5):
                     al.unitary_alignments[0].compute_disorder(d)
                     d.valid_alignments(c)
                 elif kind == "gamma":
+                    gt = rng.choice([None, list(c.annotators)[:2]])
+                    if gt is not None and all(len(c[a]) == 0 for a in gt):
+                        gt = None
                     c.compute_gamma(d, n_samples=2, sampler=pa.ShuffleContinuumSampler("float_pivot") if unlabelled else
                                     rng.choice([None, pa.ShuffleContinuumSampler("float_pivot")]),
-                                    ground_truth_annotators=rng.choice([None, list(c.annotators)[:2]]))
+                                    ground_truth_annotators=gt)
                 elif kind == "gamma_soft":
                     c.compute_gamma(d, n_samples=2, soft=True, precision_level=rng.choice([None, 0.5]))
                 elif kind == "gamma_cat":
@@ -220,7 +223,10 @@ def session(pa, rng, length, max_obj=5):
                         r.gamma_k(cat)
                 elif kind == "sampler_init":
                     s = rng.choice([pa.StatisticalContinuumSampler(), pa.ShuffleContinuumSampler()])
-                    s.init_sampling(c, rng.choice([None, list(c.annotators)[:2]]))
+                    gt = rng.choice([None, list(c.annotators)[:2]])
+                    if gt is not None and all(len(c[a]) == 0 for a in gt):
+                        gt = None       # the shuffle sampler retries for ever when no ground-truth annotator has a unit (precondition)
+                    s.init_sampling(c, gt)
                     s.sample_from_continuum
                 elif kind == "cst_new":
                     cst = pa.CorpusShufflingTool(rng.choice([0.0, 0.5, 1.0]), c, categories=rng.choice([None, ["extra"]]))
